@@ -281,6 +281,42 @@ def closer_checked(R, ctx):
         R.ob(rid, "text|%s" % label, out == want, ctx.where(fn), "%r -> %r (expected %r) %s" % (content, out, want, why[:1] if out != want else ""))
 
 
+def line_comment_classifier(R, ctx):
+    """The generator's line-comment / long-comment classifier on the (bounded) grammar of comment openers."""
+    from .. import peval
+    rid = "C18.linecomment"
+    lib = ctx.lib
+    R.rule(rid, "token_based::is_single_line_comment, evaluated from its typed tree on the grammar of comment openers (Lua manual 2.1: a long "
+                "comment opens with `--[`, n `=` signs and a second `[`), n bounded at 6: `--[=*[..` is a long comment for every level 0..6 "
+                "and nothing else is -- `--x`, `--[`, `--[==`, `--[=x[`, `--[a[ note`, `--[ [` are line comments. A line comment taken for a "
+                "long one gets no line break after it and swallows the next token; a long comment taken for a line comment is glued to a "
+                "preceding line comment and its body becomes code")
+    fn = lib.fn("generator::token_based::is_single_line_comment")
+    if not R.require(rid, "anchor", fn is not None, "", "is_single_line_comment not found"):
+        return
+    cases = []
+    for k in range(0, 7):
+        cases.append(("--[" + "=" * k + "[ text ]" + "=" * k + "]", False, "long comment of level %d" % k))
+        cases.append(("--[" + "=" * k + "[", False, "long comment opener of level %d at end of text" % k))
+        cases.append(("--[" + "=" * k, True, "`--[` and %d `=` without a second `[`" % k))
+        cases.append(("--[" + "=" * k + "x[ text", True, "level %d interrupted by another character before the second `[`" % k))
+    cases += [("-- text", True, "plain line comment"), ("--", True, "empty line comment"), ("--[a[ note", True, "`--[a[`"), ("--[ [ note", True, "`--[ [`"),
+              ("--]]", True, "`--]]`"), ("--x[[", True, "`--x[[`")]
+    bad, unk = [], []
+    for text, want, what in cases:
+        pe = peval.PEval(lib, ctx.an)
+        try:
+            v = pe.call_fn(fn, [text])
+        except peval.OutOfFuel:
+            v = peval.UNKNOWN
+        if not isinstance(v, bool):
+            unk.append((what, pe.unknown_reasons[:1]))
+        elif v is not want:
+            bad.append("%s (`%s`) is classified as a %s comment" % (what, text[:16], "line" if v else "long"))
+    R.ob(rid, "classifier|table-established", not unk, ctx.where(fn), "all %d opener shapes evaluate to a boolean" % len(cases) if not unk else "not established: %s %s" % unk[0])
+    R.ob(rid, "classifier|openers", not bad, ctx.where(fn), "every opener shape is classified as the Lua lexer reads it" if not bad else "; ".join(bad[:3]))
+
+
 def run(R, ctx):
     R.explanation = (
         "Static coverage proof over the AST type graph (derived from the ADT facts): every slot that can hold a Token is "
@@ -302,3 +338,4 @@ def run(R, ctx):
     effects(R, ctx, fams)
     shift_only_at_start(R, ctx)
     closer_checked(R, ctx)
+    line_comment_classifier(R, ctx)
